@@ -1,6 +1,7 @@
 import DaskModel.DriverLib
 import DaskModel.Model.SDL
 import DaskModel.Model.Repart
+import DaskModel.Model.Divs
 open Dask
 
 /-- `(sdl (seq…) npartitions n)` / `(sdl (seq…) chunksize c)` ↦ `(ok (divisions…) (locations…))` | `(raised)` -/
@@ -90,7 +91,31 @@ def hToMore : Handler := handler fun args =>
   | [ls, n] => do pure (okOr ((Repart.toMore (partsOfLengths (← ls.toNats?)) (← n.toNat?)).map idsOf))
   | _ => none
 
+/-! ## C41 -/
+def optNat? : SExp → Option (Option Nat)
+  | .sym "none" => some none
+  | e => e.toNat?.map some
+
+def hTruthful : Handler := handler fun args =>
+  match args with
+  | [d, ps] => do pure (SExp.ofBool (Divs.truthfulB (← d.toNats?) (← ps.toNatss?)))
+  | _ => none
+
+def hLocSliceDivs : Handler := handler fun args =>
+  match args with
+  | [d, a, b] => do
+    pure (match Divs.locSlice (← d.toNats?) (← optNat? a) (← optNat? b) with
+      | some pl => .list [.sym "ok", SExp.ofNat pl.start, SExp.ofNat pl.stop, SExp.ofNats pl.divisions]
+      | none => .list [.sym "raised"])
+  | _ => none
+
+def hPartitionsDivs : Handler := handler fun args =>
+  match args with
+  | [d, sel] => do pure (okOr ((Divs.partitionsDivs (← d.toNats?) (← sel.toNats?)).map SExp.ofNats))
+  | _ => none
+
 def table : List (String × Handler) := [("sdl", hSdl),
+  ("truthful", hTruthful), ("locslice-divs", hLocSliceDivs), ("partitions-divs", hPartitionsDivs),
   ("tofewer-bounds", hToFewerBounds), ("split-positions", hSplitPositions), ("nsplits", hNsplits),
   ("lower-kind", hLowerKind), ("div-layer", hDivLayer), ("repart-divs", hRepartDivs),
   ("tofewer", hToFewer), ("tomore", hToMore)]
